@@ -468,7 +468,7 @@ def sample(ty, name, fn):
     t = ' '.join(t.split())
     simple = {
         'spif_str_t': 'mk_str(variant)', 'spif_ustr_t': 'mk_ustr(variant)', 'spif_mbuff_t': 'mk_mbuff(variant)', 'spif_obj_t': 'mk_obj(variant)',
-        'spif_charptr_t': 'mk_cstr()', 'spif_byteptr_t': '(spif_byteptr_t) mk_cstr()', 'char *': 'mk_cstr()', 'spif_ptr_t': '(spif_ptr_t) mk_cstr()',
+        'spif_charptr_t': 'mk_cstr_v(variant)', 'spif_byteptr_t': '(spif_byteptr_t) mk_cstr()', 'char *': 'mk_cstr_v(variant)', 'spif_ptr_t': '(spif_ptr_t) mk_cstr()',
         'spif_objpair_t': 'mk_pair(variant)', 'spif_tok_t': 'mk_tok(variant)', 'spif_url_t': 'mk_url(variant)', 'spif_regexp_t': 'mk_regexp(variant)',
         'spif_socket_t': 'mk_socket()', 'spif_array_t': 'mk_array_v(K, variant)', 'spif_linked_list_t': 'mk_llist_v(K, variant)', 'spif_dlinked_list_t': 'mk_dlist_v(K, variant)',
         'spif_list_t': 'mk_list()', 'spif_vector_t': 'mk_vector()', 'spif_map_t': 'mk_map()',
